@@ -198,8 +198,20 @@ def make_replay(prop, u, ur, native_replay):
     ur.counterexample = test_text
     if test_text:
         rec["concrete_values"] = re.findall(r"^\s*// (.*)$", test_text, re.M)
+    if not test_text and u.get("native_test"):
+        pass  # handled below: no concrete playback test was produced, fall back to the unit's hand-written native test
     if test_text and native_replay and u.get("replay", "playback") == "playback":
         ok, out = native_playback(u, test_text)
+        rec["native_outcome"] = ok
+        rec["native_output"] = out[-3000:]
+        ur.native = ok
+    elif native_replay and u.get("native_test"):
+        # units whose harness uses kani::stub cannot be played back byte for byte (stubs are not applied natively):
+        # a hand-written native test for the same obligation is run against the real code instead
+        nt = u["native_test"]
+        text = open(os.path.join(VERIF, "kani", "native", nt["file"])).read()
+        ok, out = native_test(u["file"], nt["name"], text)
+        rec["native_test"] = text
         rec["native_outcome"] = ok
         rec["native_output"] = out[-3000:]
         ur.native = ok
